@@ -43,3 +43,265 @@ pub const TWO62: u64 = 4611686018427387904;
 pub fn spec_sid_client_initiated(id: u64) -> bool { id % 2 == 0 }
 pub fn spec_sid_bidi(id: u64) -> bool { (id / 2) % 2 == 0 }
 pub fn spec_sid_index(id: u64) -> u64 { id / 4 }
+
+// ---- (kaniA) C14 / C18 / C19: wire images of what h3 writes -------------------------------------
+/// A small byte string under construction (the spec side of `WriteBuf` / `EncodedDatagram` headers).
+#[derive(Clone, Copy)]
+pub struct SpecBytes { pub b: [u8; 80], pub n: usize }
+pub fn spec_bytes_new() -> SpecBytes { SpecBytes { b: [0u8; 80], n: 0 } }
+pub fn spec_bytes_varint(mut s: SpecBytes, x: u64) -> SpecBytes {
+    let (e, n) = spec_varint_enc(x);
+    let mut i = 0;
+    while i < n { s.b[s.n] = e[i]; s.n += 1; i += 1; }
+    s
+}
+pub fn spec_bytes_lit(mut s: SpecBytes, lit: &[u8]) -> SpecBytes {
+    let mut i = 0;
+    while i < lit.len() { s.b[s.n] = lit[i]; s.n += 1; i += 1; }
+    s
+}
+/// RFC 9114 §7.1: Type (i), Length (i) — the payload follows.
+pub fn spec_frame_hdr(ty: u64, len: u64) -> SpecBytes {
+    spec_bytes_varint(spec_bytes_varint(spec_bytes_new(), ty), len)
+}
+/// RFC 9114 §7.2.x frames whose whole payload is one varint (CANCEL_PUSH, GOAWAY, MAX_PUSH_ID).
+pub fn spec_frame_single_varint(ty: u64, id: u64) -> SpecBytes {
+    spec_bytes_varint(spec_frame_hdr(ty, spec_varint_len(id) as u64), id)
+}
+/// RFC 9114 §11.2.1 frame types
+pub const SPEC_FT_DATA: u64 = 0x00;
+pub const SPEC_FT_HEADERS: u64 = 0x01;
+pub const SPEC_FT_CANCEL_PUSH: u64 = 0x03;
+pub const SPEC_FT_SETTINGS: u64 = 0x04;
+pub const SPEC_FT_PUSH_PROMISE: u64 = 0x05;
+pub const SPEC_FT_GOAWAY: u64 = 0x07;
+pub const SPEC_FT_MAX_PUSH_ID: u64 = 0x0d;
+/// RFC 9114 §11.2.4 stream types; draft-ietf-webtrans-http3 §4.1/§4.2 signal values
+pub const SPEC_ST_CONTROL: u64 = 0x00;
+pub const SPEC_ST_PUSH: u64 = 0x01;
+pub const SPEC_ST_QPACK_ENCODER: u64 = 0x02;
+pub const SPEC_ST_QPACK_DECODER: u64 = 0x03;
+pub const SPEC_WT_UNI_STREAM: u64 = 0x54;
+pub const SPEC_WT_BIDI_SIGNAL: u64 = 0x41;
+/// RFC 9114 §7.2.8: frame types reserved because HTTP/2 used them; MUST NOT be sent.
+pub fn spec_is_h2_reserved_frame_type(t: u64) -> bool { t == 0x02 || t == 0x06 || t == 0x08 || t == 0x09 }
+/// RFC 9114 §7.2.8 / §6.2.3 / §7.2.4.1: reserved ("grease") identifiers are 0x1f * N + 0x21, N >= 0.
+pub fn spec_is_grease(x: u64) -> bool { x >= 0x21 && (x - 0x21) % 0x1f == 0 }
+/// RFC 9297 §2.1: Quarter Stream ID (i) then the payload.  Header of the datagram of stream `s`.
+pub fn spec_datagram_hdr(s: u64) -> ([u8; 8], usize) { spec_varint_enc(s / 4) }
+/// Some((stream id, offset of the payload)) when `d` is an acceptable HTTP datagram; None when the
+/// quarter stream id is truncated or exceeds 2^60-1 (stream id would exceed 2^62-1).
+pub fn spec_datagram_dec(d: &[u8]) -> Option<(u64, usize)> {
+    match spec_varint_dec(d) {
+        None => None,
+        Some((q, n)) => if q > TWO62 / 4 - 1 { None } else { Some((q + q + q + q, n)) },
+    }
+}
+pub const SPEC_H3_DATAGRAM_ERROR: u64 = 0x33;
+
+// ---------------------------------------------------------------------------------------------
+// SETTINGS (RFC 9114 §7.2.4) — added by kaniB for C13
+/// RFC 9114 §7.2.4.1 / §11.2.2: HTTP/2 settings with no HTTP/3 counterpart are reserved.
+pub fn spec_is_h2_reserved_setting(id: u64) -> bool {
+    id == 0x00 || id == 0x02 || id == 0x03 || id == 0x04 || id == 0x05
+}
+// (spec_is_grease: defined above)
+pub const SPEC_SETTINGS_MAX_PAIRS: usize = 16;
+#[derive(Clone, Copy)]
+pub struct SpecSettings {
+    /// (identifier, value) in wire order
+    pub pairs: [(u64, u64); SPEC_SETTINGS_MAX_PAIRS],
+    pub n: usize,
+    /// every varint of the payload used its shortest form
+    pub minimal: bool,
+}
+/// Payload of a SETTINGS frame: Some(..) iff `s` is a whole number of (varint, varint) pairs
+/// (executable rendering holds at most SPEC_SETTINGS_MAX_PAIRS pairs; more => None, callers bound the input).
+pub fn spec_settings_payload_dec(s: &[u8]) -> Option<SpecSettings> {
+    let mut out = SpecSettings { pairs: [(0, 0); SPEC_SETTINGS_MAX_PAIRS], n: 0, minimal: true };
+    let mut at = 0usize;
+    while at < s.len() {
+        if out.n == SPEC_SETTINGS_MAX_PAIRS {
+            return None;
+        }
+        let (id, n1) = match spec_varint_dec(&s[at..]) { Some(x) => x, None => return None };
+        at += n1;
+        let (val, n2) = match spec_varint_dec(&s[at..]) { Some(x) => x, None => return None };
+        at += n2;
+        if n1 != spec_varint_len(id) || n2 != spec_varint_len(val) {
+            out.minimal = false;
+        }
+        out.pairs[out.n] = (id, val);
+        out.n += 1;
+    }
+    Some(out)
+}
+/// A whole SETTINGS frame at the start of `s`: type 0x04, Length, payload of exactly Length bytes.
+/// Returns the parsed payload, the total number of bytes of the frame, and whether type and length
+/// were themselves in shortest form.
+pub fn spec_settings_frame_dec(s: &[u8]) -> Option<(SpecSettings, usize, bool)> {
+    let (ty, n0) = match spec_varint_dec(s) { Some(x) => x, None => return None };
+    if ty != 0x04 {
+        return None;
+    }
+    let (len, n1) = match spec_varint_dec(&s[n0..]) { Some(x) => x, None => return None };
+    let hdr = n0 + n1;
+    if ((s.len() - hdr) as u64) < len {
+        return None;
+    }
+    let total = hdr + len as usize;
+    let hdr_minimal = n0 == 1 && n1 == spec_varint_len(len);
+    match spec_settings_payload_dec(&s[hdr..total]) {
+        Some(p) => Some((p, total, hdr_minimal)),
+        None => None,
+    }
+}
+/// What a receiver must do with a SETTINGS payload (RFC 9114 §7.2.4, §7.2.4.1), reading pairs in wire
+/// order; `known` = the identifiers the receiver understands.  The first offending pair decides:
+/// Malformed (payload ends inside a pair) | Reserved(id) (HTTP/2-reserved identifier) |
+/// Repeated(id) (an understood identifier for the second time) | Ok (end of payload reached).
+/// Identifiers the receiver does not understand are ignored, however often they occur.
+#[derive(Clone, Copy, PartialEq, Eq, Debug)]
+pub enum SpecSettingsVerdict { Ok, Malformed, Reserved(u64), Repeated(u64) }
+pub fn spec_settings_verdict(s: &[u8], known: &[u64]) -> (SpecSettingsVerdict, SpecSettings) {
+    // `applied` = the understood (id, value) pairs accepted so far, in wire order
+    let mut applied = SpecSettings { pairs: [(0, 0); SPEC_SETTINGS_MAX_PAIRS], n: 0, minimal: true };
+    let mut at = 0usize;
+    while at < s.len() {
+        let (id, n1) = match spec_varint_dec(&s[at..]) { Some(x) => x, None => return (SpecSettingsVerdict::Malformed, applied) };
+        at += n1;
+        let (val, n2) = match spec_varint_dec(&s[at..]) { Some(x) => x, None => return (SpecSettingsVerdict::Malformed, applied) };
+        at += n2;
+        if spec_is_h2_reserved_setting(id) {
+            return (SpecSettingsVerdict::Reserved(id), applied);
+        }
+        let mut is_known = false;
+        let mut k = 0;
+        while k < known.len() {
+            if known[k] == id { is_known = true; }
+            k += 1;
+        }
+        if is_known {
+            let mut j = 0;
+            while j < applied.n {
+                if applied.pairs[j].0 == id { return (SpecSettingsVerdict::Repeated(id), applied); }
+                j += 1;
+            }
+            if applied.n == SPEC_SETTINGS_MAX_PAIRS { return (SpecSettingsVerdict::Malformed, applied); } // not reachable: known ids are distinct and fewer
+            applied.pairs[applied.n] = (id, val);
+            applied.n += 1;
+        }
+    }
+    (SpecSettingsVerdict::Ok, applied)
+}
+/// identifiers (RFC 9114 §7.2.4.1, RFC 9204 §5, RFC 9220 §5, RFC 9297 §2.1.1, draft-ietf-webtrans-http3 §8.2)
+pub const SPEC_SETTINGS_QPACK_MAX_TABLE_CAPACITY: u64 = 0x01;
+pub const SPEC_SETTINGS_MAX_FIELD_SECTION_SIZE: u64 = 0x06;
+pub const SPEC_SETTINGS_QPACK_BLOCKED_STREAMS: u64 = 0x07;
+pub const SPEC_SETTINGS_ENABLE_CONNECT_PROTOCOL: u64 = 0x08;
+pub const SPEC_SETTINGS_H3_DATAGRAM: u64 = 0x33;
+pub const SPEC_SETTINGS_ENABLE_WEBTRANSPORT: u64 = 0x2b603742;
+pub const SPEC_SETTINGS_WEBTRANSPORT_MAX_SESSIONS: u64 = 0x2b603743;
+
+/// RFC 9204 Appendix A, transcribed independently (design_probes/rfc9204_static_table.txt): (name, value), index = position.
+pub const SPEC_STATIC_TABLE: [(&[u8], &[u8]); 99] = [
+    (b":authority", b""), // 0
+    (b":path", b"/"), // 1
+    (b"age", b"0"), // 2
+    (b"content-disposition", b""), // 3
+    (b"content-length", b"0"), // 4
+    (b"cookie", b""), // 5
+    (b"date", b""), // 6
+    (b"etag", b""), // 7
+    (b"if-modified-since", b""), // 8
+    (b"if-none-match", b""), // 9
+    (b"last-modified", b""), // 10
+    (b"link", b""), // 11
+    (b"location", b""), // 12
+    (b"referer", b""), // 13
+    (b"set-cookie", b""), // 14
+    (b":method", b"CONNECT"), // 15
+    (b":method", b"DELETE"), // 16
+    (b":method", b"GET"), // 17
+    (b":method", b"HEAD"), // 18
+    (b":method", b"OPTIONS"), // 19
+    (b":method", b"POST"), // 20
+    (b":method", b"PUT"), // 21
+    (b":scheme", b"http"), // 22
+    (b":scheme", b"https"), // 23
+    (b":status", b"103"), // 24
+    (b":status", b"200"), // 25
+    (b":status", b"304"), // 26
+    (b":status", b"404"), // 27
+    (b":status", b"503"), // 28
+    (b"accept", b"*/*"), // 29
+    (b"accept", b"application/dns-message"), // 30
+    (b"accept-encoding", b"gzip, deflate, br"), // 31
+    (b"accept-ranges", b"bytes"), // 32
+    (b"access-control-allow-headers", b"cache-control"), // 33
+    (b"access-control-allow-headers", b"content-type"), // 34
+    (b"access-control-allow-origin", b"*"), // 35
+    (b"cache-control", b"max-age=0"), // 36
+    (b"cache-control", b"max-age=2592000"), // 37
+    (b"cache-control", b"max-age=604800"), // 38
+    (b"cache-control", b"no-cache"), // 39
+    (b"cache-control", b"no-store"), // 40
+    (b"cache-control", b"public, max-age=31536000"), // 41
+    (b"content-encoding", b"br"), // 42
+    (b"content-encoding", b"gzip"), // 43
+    (b"content-type", b"application/dns-message"), // 44
+    (b"content-type", b"application/javascript"), // 45
+    (b"content-type", b"application/json"), // 46
+    (b"content-type", b"application/x-www-form-urlencoded"), // 47
+    (b"content-type", b"image/gif"), // 48
+    (b"content-type", b"image/jpeg"), // 49
+    (b"content-type", b"image/png"), // 50
+    (b"content-type", b"text/css"), // 51
+    (b"content-type", b"text/html; charset=utf-8"), // 52
+    (b"content-type", b"text/plain"), // 53
+    (b"content-type", b"text/plain;charset=utf-8"), // 54
+    (b"range", b"bytes=0-"), // 55
+    (b"strict-transport-security", b"max-age=31536000"), // 56
+    (b"strict-transport-security", b"max-age=31536000; includesubdomains"), // 57
+    (b"strict-transport-security", b"max-age=31536000; includesubdomains; preload"), // 58
+    (b"vary", b"accept-encoding"), // 59
+    (b"vary", b"origin"), // 60
+    (b"x-content-type-options", b"nosniff"), // 61
+    (b"x-xss-protection", b"1; mode=block"), // 62
+    (b":status", b"100"), // 63
+    (b":status", b"204"), // 64
+    (b":status", b"206"), // 65
+    (b":status", b"302"), // 66
+    (b":status", b"400"), // 67
+    (b":status", b"403"), // 68
+    (b":status", b"421"), // 69
+    (b":status", b"425"), // 70
+    (b":status", b"500"), // 71
+    (b"accept-language", b""), // 72
+    (b"access-control-allow-credentials", b"FALSE"), // 73
+    (b"access-control-allow-credentials", b"TRUE"), // 74
+    (b"access-control-allow-headers", b"*"), // 75
+    (b"access-control-allow-methods", b"get"), // 76
+    (b"access-control-allow-methods", b"get, post, options"), // 77
+    (b"access-control-allow-methods", b"options"), // 78
+    (b"access-control-expose-headers", b"content-length"), // 79
+    (b"access-control-request-headers", b"content-type"), // 80
+    (b"access-control-request-method", b"get"), // 81
+    (b"access-control-request-method", b"post"), // 82
+    (b"alt-svc", b"clear"), // 83
+    (b"authorization", b""), // 84
+    (b"content-security-policy", b"script-src 'none'; object-src 'none'; base-uri 'none'"), // 85
+    (b"early-data", b"1"), // 86
+    (b"expect-ct", b""), // 87
+    (b"forwarded", b""), // 88
+    (b"if-range", b""), // 89
+    (b"origin", b""), // 90
+    (b"purpose", b"prefetch"), // 91
+    (b"server", b""), // 92
+    (b"timing-allow-origin", b"*"), // 93
+    (b"upgrade-insecure-requests", b"1"), // 94
+    (b"user-agent", b""), // 95
+    (b"x-forwarded-for", b""), // 96
+    (b"x-frame-options", b"deny"), // 97
+    (b"x-frame-options", b"sameorigin"), // 98
+];
